@@ -49,9 +49,12 @@ DemotedIn(p, o) == IF p.pend = <<>> THEN {} ELSE { a \in Accts(o) : SetOf(p.pend
 KnownSet(o) == { <<k[1], k[2], k[3], k[4]>> : k \in SetOf(o.known) }
 Dropped(e, o) == IF e.ev = "ResetBack" /\ "reinj" \in DOMAIN e.res
                  THEN { t.a : t \in { x \in SetOf(e.res.reinj) : <<x.a, x.n, x.p, x.v>> \notin KnownSet(o) } } ELSE {}
+\* a sample of the concurrent driver sums up a whole round: when the round re-priced or moved the head, demotions may have
+\* happened without being visible as such between two samples
+Hidden(e) == e.ev = "Sample" /\ e.args.demoting
 NewDem(e, o) ==
-   [acc  |-> { a \in Accts(o) : Len(o.que[a]) > cfg.aq /\ (a \in dem.acc \/ a \in DemotedIn(prev, o)) },
-    glob |-> Total(o.que) > cfg.gq /\ (dem.glob \/ DemotedIn(prev, o) # {}),
+   [acc  |-> { a \in Accts(o) : Len(o.que[a]) > cfg.aq /\ (a \in dem.acc \/ a \in DemotedIn(prev, o) \/ Hidden(e)) },
+    glob |-> Total(o.que) > cfg.gq /\ (dem.glob \/ DemotedIn(prev, o) # {} \/ Hidden(e)),
     gap  |-> { a \in Accts(o) : ~GapFreeAt(o, a) /\ (a \in dem.gap \/ a \in Dropped(e, o)) }]
 
 Fails(e, o, d) ==
